@@ -118,21 +118,28 @@ def scanHeader : List (List String) → List Elem → Nat → Except HdrErr (Lis
           | none => .error .badElement
         | _ => .error .badElement
       else if (kw.splitOn "property").length > 1 then
-        match acc with
-        | [] => .error .badProperty
-        | e :: acc' =>
-          match args with
-          | [dt, _] => if knownTypes.contains dt then scanHeader rest ({ e with props := e.props + 1 } :: acc') (n + 1)
-                       else .error .unknownType
-          | a1 :: rest' =>
-            if (a1.splitOn "list").length > 1 then
-              match rest' with
-              | [dc, dt, _] => if knownTypes.contains dc && knownTypes.contains dt
-                               then scanHeader rest ({ e with props := e.props + 1 } :: acc') (n + 1)
-                               else .error .unknownType
-              | _ => .error .badProperty
-            else scanHeader rest (e :: acc') (n + 1)
+        -- the element the property belongs to is looked up only when the line is stored: a property line of
+        -- another shape (not three tokens, no `list`) is skipped even before the first element
+        match args with
+        | [dt, _] =>
+          match acc with
           | [] => .error .badProperty
+          | e :: acc' =>
+            if knownTypes.contains dt then scanHeader rest ({ e with props := e.props + 1 } :: acc') (n + 1)
+            else .error .unknownType
+        | a1 :: rest' =>
+          if (a1.splitOn "list").length > 1 then
+            match rest' with
+            | [dc, dt, _] =>
+              match acc with
+              | [] => .error .badProperty
+              | e :: acc' =>
+                if knownTypes.contains dc && knownTypes.contains dt
+                then scanHeader rest ({ e with props := e.props + 1 } :: acc') (n + 1)
+                else .error .unknownType
+            | _ => .error .badProperty
+          else scanHeader rest acc (n + 1)
+        | [] => .error .badProperty
       else scanHeader rest acc (n + 1)
 
 end TV.Load
